@@ -156,11 +156,11 @@ Proof. exact (conj cut_spec (conj utf8_len_app (conj index_of_sound index_of_non
 (* misuse is an error, never a value: call arity, unknown method, non-function argument, callback arity, non-bool callback result, non-int n, combineN n<1, empty reductions, set out of range *)
 Theorem C07_misuse_is_error :
   (* misuse_wrong_arity *)
-  (forall p m args ar,
+  (forall p m args ar, is_pseudo m = false ->
   lookup_arity (tid_of p) m = Some ar -> 0 <= ar -> ar <> Z.of_nat (length args) ->
   run_step p m args = Err None) /\
   (* misuse_unknown_method *)
-  (forall p m args,
+  (forall p m args, is_pseudo m = false ->
   lookup_arity (tid_of p) m = None -> is_unmodelled (tid_of p) m = false -> run_step p m args = Err None) /\
   (* misuse_not_a_function *)
   (forall m, In m (cb1_methods ++ cb2_methods ++ [M_combine3]) ->
